@@ -157,6 +157,8 @@ func argClass(c callT) string {
 		return "out_of_range"
 	case c.Tok == "list_mixed" || c.Tok == "list_bad" || c.Tok == "map_list":
 		return "list_items"
+	case c.Tok == "same_type" || c.Tok == "same_type_bad":
+		return "container_of_result_type"
 	case c.Tok == "renamed" || c.Tok == "unnamed" || c.Tok == "scope_renamed":
 		return "display_name_differs"
 	case c.Tok == "collide" || c.Tok == "typed_collide":
@@ -364,6 +366,7 @@ var opTable = map[string][][2]string{
 	"objmap":    {{"unser", "rand"}, {"unser", "rand"}, {"unser", "bad"}, {"valid", "rand"}, {"ser", "rand"}},
 	"objstruct": {{"unser", "rand"}, {"unser", "rand"}, {"unser", "rand"}, {"unser", "bad"}, {"ser", "full"}, {"valid", "full"}},
 	"mapcoll":   {{"unser", "collide"}, {"unser", "single"}, {"unser", "bad"}, {"unser", "typed_collide"}},
+	"listarg":   {{"unser", "same_type"}, {"unser", "same_type_bad"}, {"unser", "other_type"}},
 	"objreq": {{"compat", "data_partial"}, {"compat", "data_full"}, {"compat", "props_partial"}, {"compat", "schema_partial"},
 		{"compat", "schema_full"}, {"unser", "data_partial"}, {"unser", "data_full"}},
 	"oneof": {{"unser", "member_a"}, {"unser", "nodisc"}, {"ser", "member_a"}, {"valid", "member_a"}, {"compat", "member_a"},
@@ -456,6 +459,8 @@ func runRandom(c caseT) (r resT) {
 					m.N = -1
 				}
 			case tok == "list_mixed" || tok == "list_bad" || tok == "map_list":
+				m = flat{1, -1, -1, -1}
+			case tok == "same_type" || tok == "same_type_bad" || tok == "other_type":
 				m = flat{1, -1, -1, -1}
 			case tok == "member_a_bad":
 				m = flat{100, 1, -1, -1}
@@ -869,7 +874,7 @@ func raceTrials(c caseT, out *oneshotOut) {
 				}
 			}
 		}
-		if in.kind == "steps" {
+		if in.kind == "steps" && in.origin != "plain" {
 			runs := map[string]bool{}
 			for g := 0; g < c.N; g++ {
 				for _, op := range c.Progs[g%len(c.Progs)] {
